@@ -141,6 +141,12 @@ def gen_cases(tier, seed):
         tail.append({"kind": "strace_pipeline", "seed": rnd.randrange(2 ** 32),
                      "command": ("scales", "convert")[k % 2], "gzip": k % 4 < 2,
                      "max_points": 12 if tier == "quick" else 60})
+    # the same commands writing SHARDED scales (the shard files are written when the
+    # accessor is closed - at the latest by its exit handler)
+    for k in range(2 if tier == "quick" else 8):
+        tail.append({"kind": "strace_pipeline", "seed": rnd.randrange(2 ** 32),
+                     "command": ("convert", "scales")[k % 2], "gzip": False, "sharded": True,
+                     "max_points": 12 if tier == "quick" else 40})
     return cases + tail
 
 
@@ -1115,10 +1121,18 @@ def run_strace_pipeline(case):
                    "resolution": [1, 1, 1], "voxel_offset": [0, 0, 0]},
                   {"key": "s1", "size": half, "chunk_sizes": [[8, 8, 8]], "encoding": "raw",
                    "resolution": [2, 2, 2], "voxel_offset": [0, 0, 0]}]
+        sharded = bool(case.get("sharded"))
+        sharding = {"@type": "neuroglancer_uint64_sharded_v1", "hash": "identity",
+                    "minishard_bits": 1, "shard_bits": 1, "preshift_bits": 1,
+                    "minishard_index_encoding": "raw", "data_encoding": "raw"}
+        if sharded and cmd == "scales":
+            for sc_ in scales:
+                sc_["sharding"] = dict(sharding)
+        obs["pipeline_sharded_destinations"] = int(sharded)
         info = {"type": "image", "data_type": dt, "num_channels": 1,
                 "scales": scales if cmd == "scales" else scales[:1]}
         gz = case["gzip"]
-        opts = ["--flat"] + ([] if gz else ["--no-gzip"])
+        opts = [] if sharded else ["--flat"] + ([] if gz else ["--no-gzip"])
         env = dict(os.environ, TQDM_DISABLE="1")
 
         def grid(sc):
@@ -1128,10 +1142,16 @@ def run_strace_pipeline(case):
                                                      range(0, Z, 8))]
         # template source dataset (scale s0 written with the library, outside of any fault)
         tmpl = os.path.join(top, "tmpl")
-        acc = file_accessor.FileAccessor(tmpl, flat=True, gzip=gz)
+        if sharded and cmd == "scales":
+            from neuroglancer_scripts import sharded_file_accessor
+            acc = sharded_file_accessor.ShardedFileAccessor(tmpl)
+        else:
+            acc = file_accessor.FileAccessor(tmpl, flat=True, gzip=gz)
         pio = precomputed_io.get_IO_for_new_dataset(info, acc)
         for c in grid(scales[0]):
             pio.write_chunk(vol[:, c[4]:c[5], c[2]:c[3], c[0]:c[1]], "s0", c)
+        if hasattr(acc, "close"):
+            acc.close()
 
         def fresh(name):
             d = os.path.join(top, name)
@@ -1145,6 +1165,8 @@ def run_strace_pipeline(case):
             dinfo["scales"][0]["encoding"] = "compressed_segmentation"
             dinfo["scales"][0]["compressed_segmentation_block_size"] = [4, 4, 4]
             dinfo["type"] = "segmentation"
+            if sharded:
+                dinfo["scales"][0]["sharding"] = dict(sharding)
             with open(os.path.join(d, "info"), "w") as f:
                 json.dump(dinfo, f)
             return d, [sys.executable, "-W", "ignore", "-m",
@@ -1224,7 +1246,7 @@ def run_strace_pipeline(case):
                        "read": "EIO"}[name]
                 inj = f"inject={name}:error={err}:when={k}"
                 label = f"{cmd}: {err} at {name} #{k}"
-            label += f" ({'gzip' if gz else 'plain'} flat files)"
+            label += " (sharded)" if sharded else f" ({'gzip' if gz else 'plain'} flat files)"
             try:
                 p = subprocess.run(["strace", "-f", "-qq", "-o", "/dev/null", "-e",
                                     f"trace={name}", "-e", inj, *argv], capture_output=True,
@@ -1294,6 +1316,8 @@ def gates(obs, tier):
         and obs.get("pipeline_fault_runs", 0) >= 8 and obs.get("pipeline_kill_runs", 0) >= 2
         and obs.get("pipeline_failure_status", 0) > 0 and obs.get("pipeline_killed", 0) > 0
         and obs.get("pipeline_read_faults", 0) > 0,
+        "system_call_faults_on_commands_writing_sharded_scales": obs.get(
+            "pipeline_sharded_destinations", 0) >= 2,
         "system_call_faults_on_the_real_command": obs.get("syscall_fault_runs", 0) >= 10
         and obs.get("syscall_faults_leading_to_failure_status", 0) > 0,
         "interposition_complete_at_system_call_level": obs.get("strace_available", 0) > 0
